@@ -54,7 +54,7 @@ class RFile(object):
 # --------------------------------------------------------------------------
 # the shared file universe U (DESIGN section 3)
 
-KINDS = ('A', 'M', 'B', 'X', 'Zx', 'S', 'Ch', 'M0')
+KINDS = ('A', 'M', 'B', 'X', 'Zx', 'S', 'Ch', 'M0', 'Mn', 'Sw')
 _KIDX = {k: i + 1 for i, k in enumerate(KINDS)}
 XCOORD = {1: [10.], 2: [10., 20.], 3: [10., 20., 40.], 4: [10., 20., 40., 50.]}
 
@@ -110,6 +110,23 @@ def ufile(recipe):
             m = np.zeros(sh, bool)
             m.flat[0] = True
             f.vars['M0'] = RVar(('z', 'x'), d, m, OrderedDict([('units', 'n')]), fill=0)
+        elif k == 'Mn':
+            # masked variable holding VALID cells equal to, and within 1e-5 (relative) of, its fill value
+            sh = (lens['t'], lens['x'])
+            d = _ramp('Mn', sh, 'd')
+            d.flat[0] = -999.
+            if d.size > 2:
+                d.flat[2] = -998.995
+            m = np.zeros(sh, bool)
+            m.flat[1 if m.size > 1 else 0] = True
+            if m.size == 1:
+                m[...] = False
+            f.vars['Mn'] = RVar(('t', 'x'), d, m, OrderedDict([('units', 'K')]), fill=-999., masked=True)
+        elif k == 'Sw':
+            # strings of four characters per element (not a character array)
+            n = lens['x']
+            f.vars['Sw'] = RVar(('x',), np.array([b'KATL', b'KBOS', b'KDEN', b'KJFK'][:n], dtype='S4'),
+                                attrs=OrderedDict([('units', 'site')]))
         elif k == 'Ch':
             n = lens['x']
             f.vars['Ch'] = RVar(('x',), np.array(list('abcd'[:n]), dtype='S1'),
